@@ -39,6 +39,11 @@ impl Strat {
 /// the value the word-by-word strategy's system call also uses to signal an error.
 const FF_SPANS: [(u64, u64); 4] = [(8, 24), (5 * PAGE + 1000 + 13, 40), (PAGES * PAGE - 48, 16), (PAGES * PAGE - 16, 16)];
 
+thread_local! {
+    /// this worker's region has an unmapped hole in front of it (instead of the inaccessible guard page)
+    static FRONT_HOLE: std::cell::Cell<bool> = const { std::cell::Cell::new(false) };
+}
+
 fn true_byte(region: u64, tail_protnone: bool, a: u64) -> Option<u8> {
     let end = region + PAGES * PAGE;
     if a >= region && a < end {
@@ -46,7 +51,7 @@ fn true_byte(region: u64, tail_protnone: bool, a: u64) -> Option<u8> {
             return Some(0xff);
         }
         Some(pattern_byte(a))
-    } else if (tail_protnone && a >= end && a < end + PAGE) || (a >= region - PAGE && a < region) {
+    } else if (tail_protnone && a >= end && a < end + PAGE) || (a >= region - PAGE && a < region && !FRONT_HOLE.with(|f| f.get())) {
         Some(0) // the PROT_NONE pages (guard page in front of every region; the tail page) were never written: their true content is zero
     } else {
         None
@@ -109,6 +114,8 @@ fn read_with(pid: i32, s: Strat, start: u64, len: usize) -> Result<Vec<u8>, Stri
 
 #[derive(Clone, Debug)]
 struct Chunk {
+    /// the guard page in front of the region is unmapped, so that nothing in front of the region can be read
+    front_hole: bool,
     protnone: bool,
     lens: Vec<usize>,
 }
@@ -126,6 +133,13 @@ fn run_chunk(c: &Chunk) -> (u64, u64, Vec<(String, String, Value)>, Option<Value
     let region = p.pattern(PAGES as usize, if c.protnone { "protnone" } else { "hole" }, "rw");
     for (o, l) in FF_SPANS {
         p.write(region + o, &vec![0xffu8; l as usize]);
+    }
+    FRONT_HOLE.with(|f| f.set(false));
+    if c.front_hole {
+        if p.cmd(&format!("unmap {:#x} 4096", region - PAGE)).is_err() {
+            return (0, 0, vec![], None, Default::default());
+        }
+        FRONT_HOLE.with(|f| f.set(true));
     }
     p.quiesce();
     let pid = p.pid;
@@ -180,7 +194,7 @@ fn run_chunk(c: &Chunk) -> (u64, u64, Vec<(String, String, Value)>, Option<Value
                     if let Some((k, m)) = judge(region, c.protnone, start, len, &r) {
                         let key = format!("{}/{k}/{place}", s.name());
                         if fails.len() < 30 && !fails.iter().any(|f| f.0 == key) {
-                            fails.push((key, format!("{} ({place}, tail {}): {m}", s.name(), if c.protnone { "PROT_NONE" } else { "unmapped" }), json!({"protnone": c.protnone, "offset_from_region": start as i64 - region as i64, "len": len, "strategy": s.name()})));
+                            fails.push((key, format!("{} ({place}, tail {}{}): {m}", s.name(), if c.protnone { "PROT_NONE" } else { "unmapped" }, if c.front_hole { ", unmapped hole in front" } else { "" }), json!({"front_hole": c.front_hole, "protnone": c.protnone, "offset_from_region": start as i64 - region as i64, "len": len, "strategy": s.name()})));
                         }
                     }
                     if sample.is_none() && place == "crosses-end" && len > 20 {
@@ -321,7 +335,7 @@ fn run_reuse(protnone: bool, depth: usize, only: Option<(Strat, Vec<(i64, usize)
 }
 
 pub fn run(ctx: &Ctx, rep: &mut Report) {
-    rep.rule = "start alignment 0..7 x length (1..300 + boundary powers quick; 1..4112 + powers thorough) x placement {region start, interior, ends exactly at the region end, crosses the end by 1..8, starts 1..8 bytes before the region} x tail {unmapped, PROT_NONE} x {process_vm_readv, /proc/pid/mem, PTRACE_PEEKDATA, fresh auto-probing reader}, a fresh reader per read; plus SEQ: one reader per strategy serving every ordered history of 2..3 (thorough 4) requests from an 8-letter alphabet (interior, at both ends, crossing the end after 7 / 3000 readable bytes, behind the end, in the guard page in front, long unaligned), every answer judged; nontrivial = reads touching a region boundary, and all reuse histories".into();
+    rep.rule = "start alignment 0..7 x length (1..300 + boundary powers quick; 1..4112 + powers thorough) x placement {region start, interior, ends exactly at the region end, crosses the end by 1..8, starts 1..8 bytes before the region} x tail {unmapped, PROT_NONE} (lengths 1..40 also with an unmapped hole instead of the guard page in front) x {process_vm_readv, /proc/pid/mem, PTRACE_PEEKDATA, fresh auto-probing reader}, a fresh reader per read; plus SEQ: one reader per strategy serving every ordered history of 2..3 (thorough 4) requests from an 8-letter alphabet (interior, at both ends, crossing the end after 7 / 3000 readable bytes, behind the end, in the guard page in front, long unaligned), every answer judged; nontrivial = reads touching a region boundary, and all reuse histories".into();
     rep.assume("the PROT_NONE tail page was never written, so its true content is zero; the kernel may legitimately let /proc/pid/mem and ptrace read it");
     if let Some(case) = &ctx.replay {
         let protnone = case["protnone"].as_bool().unwrap_or(false);
@@ -339,6 +353,9 @@ pub fn run(ctx: &Ctx, rep: &mut Report) {
         let region = p.pattern(PAGES as usize, if protnone { "protnone" } else { "hole" }, "rw");
         for (o, l) in FF_SPANS {
             p.write(region + o, &vec![0xffu8; l as usize]);
+        }
+        if case["front_hole"].as_bool() == Some(true) && p.cmd(&format!("unmap {:#x} 4096", region - PAGE)).is_ok() {
+            FRONT_HOLE.with(|f| f.set(true));
         }
         p.quiesce();
         let s = STRATS.iter().copied().find(|s| Some(s.name()) == case["strategy"].as_str()).unwrap_or(Strat::Vmem);
@@ -368,10 +385,13 @@ pub fn run(ctx: &Ctx, rep: &mut Report) {
     let mut chunks = Vec::new();
     for protnone in [false, true] {
         for part in all.chunks(all.len().div_ceil(8)) {
-            chunks.push(Chunk { protnone, lens: part.to_vec() });
+            chunks.push(Chunk { front_hole: false, protnone, lens: part.to_vec() });
         }
     }
+    // the same short lengths with an unmapped hole in front of the region
+    chunks.push(Chunk { front_hole: true, protnone: false, lens: (1..=40).collect() });
     let results = par_map(&chunks, |_, c| run_chunk(c));
+    FRONT_HOLE.with(|f| f.set(false));
     for (evals, nt, fails, sample, outs) in results {
         for o in outs {
             rep.outcome(o);
